@@ -460,6 +460,29 @@ def fitted_spec_on_other_representation(col, formula, out, efr, r1, r2, frames, 
     from formulaic import model_matrix
 
     (d1, m1, k1, v1, f1), (d2, m2, k2, v2, f2) = frames
+    catlike = ("text", "cat")
+    if formula != "C(X)" and ((k1 == "num" and k2 in catlike) or (k1 in catlike and k2 == "num")):
+        # the column changed its kind between fit and re-use: the recorded spec must refuse it (the C09 clause, checked
+        # here for every dtype route of the C08 catalogue) -- in particular text must never reach the matrix
+        col.interesting()
+        key = "reuse :: %s carrier=fitted spec out=%s efr=%s first=%s/%s second=%s/%s" % (formula, out, efr, d1, m1, d2, m2)
+        try:
+            spec = model_matrix(formula, f1, **kw(m1)).model_spec
+            m = spec.get_model_matrix(f2, materializer=m2)
+        except Exception as e:  # noqa: BLE001
+            if type(e).__name__ == "FactorEncodingError":
+                col.count("agree:fitted-spec kind change refused %s->%s" % (k1, k2))
+                return
+            col.violation(key, {"formula": formula, "first": d1, "second": d2, "error": "%s: %s" % (type(e).__name__, str(e)[:300])},
+                          sig="fitted-spec-kind-change:raises:" + type(e).__name__)
+            return
+        status, names, got, info = extract(m, out)
+        col.violation(key, {"formula": formula, "output": out, "ensure_full_rank": efr,
+                            "first": {"dtype": d1, "materializer": m1, "X": v1},
+                            "second": {"dtype": d2, "materializer": m2, "X": v2},
+                            "got_status": status, "got_columns": names, "got": got, "result_info": info,
+                            "want": "FactorEncodingError"}, sig="fitted-spec-kind-change-no-error")
+        return
     if k1 not in ("text", "cat") or k2 not in ("text", "cat") or "dictionary" in d1:
         col.count("fitted-spec carrier not applicable (kind changes / numeric / arrow dictionary at fit)")
         raise Skip()
@@ -491,6 +514,67 @@ def fitted_spec_on_other_representation(col, formula, out, efr, r1, r2, frames, 
         col.violation(key, detail, sig="fitted-spec-on-other-representation:wrong-values")
     else:
         col.count("agree:fitted-spec %s->%s" % (k1, k2))
+
+
+CONTAINERS = ["dict of scalars", "dict of lists", "dict of numpy arrays", "numpy recarray"]
+CONTAINER_X = {"text": ["y", "x", "z"], "int": [3, 1, 2], "float": [0.5, -1.25, 2.0], "bool": [True, False, True]}
+
+
+def drv_containers(c, ctx, col):
+    """Every input container the pandas materializer registers besides DataFrame (dict, numpy recarray): a dict of
+    scalars (one row, text and numbers mixed), of lists, of numpy arrays, a recarray.  Same oracle as for a frame:
+    text is dummy-coded (sorted levels), numbers pass through unchanged, every cell a number."""
+    from formulaic import model_matrix
+
+    container = c.pick(CONTAINERS)
+    xkind = c.pick(sorted(CONTAINER_X))
+    formula = c.pick(FORMULAS)
+    out = c.pick(["pandas", "numpy", "sparse"])
+    efr = not c.flag()
+    n = 1 if container == "dict of scalars" else 3
+    X, a, A = CONTAINER_X[xkind][:n], A_VALUES[:n], B_VALUES[:n]
+    if container == "dict of scalars":
+        data = {"X": X[0], "a": a[0], "A": A[0]}
+    elif container == "dict of lists":
+        data = {"X": list(X), "a": list(a), "A": list(A)}
+    elif container == "dict of numpy arrays":
+        data = {"X": np.array(X, dtype=object if xkind == "text" else None), "a": np.array(a), "A": np.array(A, dtype=object)}
+    else:
+        data = np.rec.fromarrays([np.array(X, dtype=object if xkind == "text" else None), np.array(a),
+                                  np.array(A, dtype=object)], names="X,a,A")
+    rows = [{"X": X[i], "a": a[i], "A": A[i]} for i in range(n)]
+    key = "container :: %s X=%s %r formula=%s out=%s efr=%s" % (container, xkind, X, formula, out, efr)
+    detail = {"container": container, "X": X, "a": a, "A": A, "formula": formula, "output": out, "ensure_full_rank": efr,
+              "repro": "formulaic.model_matrix(%r, <%s with X=%r, a=%r, A=%r>, output=%r, ensure_full_rank=%r)"
+                       % (formula, container, X, a, A, out, efr)}
+    col.interesting()
+    col.sample({k: detail[k] for k in ("container", "X", "formula", "output", "ensure_full_rank")})
+    try:
+        m = model_matrix(formula, data, output=out, ensure_full_rank=efr)
+    except Exception as e:  # noqa: BLE001
+        detail["error"] = "%s: %s" % (type(e).__name__, str(e)[:300])
+        col.violation(key, detail, sig="container:raises:" + type(e).__name__)
+        return
+    status, names, got, info = extract(m, out)
+    detail.update({"got_columns": names, "got": got, "result_info": info})
+    if status not in ("ok", "object-numeric"):
+        col.violation(key, detail, sig="container:" + ("boolean-cells" if status == "boolean" else "non-numeric-cells"))
+        return
+    if xkind == "bool":
+        if len(got) != n:
+            col.violation(key, detail, sig="container:wrong-row-count")
+        else:
+            col.count("bool:cells-numeric-only")
+        return
+    klass = "text" if xkind == "text" else "num"
+    want_names, want = reference(formula, klass, R.sorted_levels(X) if klass == "text" else None, rows, efr)
+    detail.update({"want_columns": want_names, "want": want})
+    if want_names is not None and names != want_names:
+        col.violation(key, detail, sig="container:wrong-columns")
+    elif len(got) != len(want) or not all(len(r) == len(w) and all(close(g, x) for g, x in zip(r, w)) for r, w in zip(got, want)):
+        col.violation(key, detail, sig="container:wrong-values")
+    else:
+        col.count("agree:" + container)
 
 
 def drv_reuse(c, ctx, col):
@@ -664,6 +748,10 @@ def subchecks(tier, seed):
         if note:
             b["note"] = note
         subs.append(Sub(name, drv_dtypes, ctx, shard_depth=shard_depth, bounds=b))
+
+    subs.append(Sub("containers", drv_containers, {}, shard_depth=2,
+                    bounds={"containers": CONTAINERS, "X": CONTAINER_X, "formulas": FORMULAS,
+                            "outputs": ["pandas", "numpy", "sparse"], "ensure_full_rank": [True, False]}))
 
     def add_reuse(thorough_scope):
         routes = ROUTES_THOROUGH if thorough_scope else ROUTES_QUICK
